@@ -10,6 +10,7 @@ import (
 
 	"verifharness/internal/fw"
 	"verifharness/internal/gen"
+	"verifharness/internal/model"
 	"verifharness/internal/proto"
 )
 
@@ -91,6 +92,27 @@ func hostileBytes(c *fw.Ctx, scale int, emit emitFn) {
 		}
 		q.Files[target] = gen.Mutate(r, p.Files[target], 1+r.Intn(4), splice)
 		emit("mutate", projectJob(id("mut"), q, r.Intn(20) == 0))
+	}
+	// mutants of rendered abstract models: documents that use every feature of the language in every layout (explicit contexts,
+	// MACRO/PASTE, INCLUDE files, CRLF/CR, block annotations), one to three steps away from valid
+	mr := gen.Rng(c.Seed, c.ID, "hostile-models")
+	for i := 0; i < 1500*scale; i++ {
+		m := model.Generate(mr, model.QuickSize)
+		rd := m.Render(model.RandomLayout(gen.Rng(c.Seed, c.ID, "hostile-layout", fmt.Sprint(i))))
+		names := make([]string, 0, len(rd.Files))
+		for k := range rd.Files {
+			names = append(names, k)
+		}
+		sort.Strings(names)
+		for v := 0; v < 3; v++ {
+			q := &gen.Project{Root: rd.Root, Files: cloneFiles(rd.Files)}
+			target := rd.Root
+			if len(names) > 1 && r.Intn(2) == 0 {
+				target = names[r.Intn(len(names))]
+			}
+			q.Files[target] = gen.Mutate(r, rd.Files[target], 1+r.Intn(3), splice)
+			emit("model-mutant", projectJob(id("mm"), q, false))
+		}
 	}
 	// dictionary strings
 	for i := 0; i < 8000*scale; i++ {
